@@ -6,7 +6,7 @@ CONSTANTS
   Types = {"result", "error", "errorBare", "set"}
   OpenKinds = {"plain", "sm", "smr", "resumed"}
   Cids = {"fresh", "empty", "dup"}
-  IdRule = "replace"
+  IdRule = "keep"
   MaxHist = 99
 INVARIANTS TypeOK AtMostOnce DoneOnce NonePending
 PROPERTIES WrongSender RightSender FreshOpen
